@@ -96,7 +96,10 @@ static void *v_calloc(size_t n, size_t sz) { V_ASSERT(n == 1 && sz == sizeof(r_b
 #ifndef ROUND0
 #define ROUND0 0
 #endif
-#define IOVN (SIZE / MBS + 2)	/* more regions than blocks can exist in two rounds' worth of table */
+#define IOVN (SIZE / MBS + 2)	/* full reads: more regions than blocks can exist in two rounds' worth of table */
+#ifndef GIOVN
+#define GIOVN 3			/* iov_cnt of ordinary reads (caller's choice; a short array just truncates the read) */
+#endif
 
 /* PAT: one letter per step = the set of operations the solver may choose from at that step (the schedule skeleton is
  * shape, everything else symbolic; every letter also allows "no operation", so a pattern covers all its subsequences):
@@ -120,9 +123,10 @@ struct in_s { struct step_s st[NSTEPS]; };
 
 static r_buf_p rb;
 static r_buf_rpos_t rp[NR];
-static int32_t sh[SIZE];
-static int32_t wseq, wseq_round;	/* wseq_round: value of wseq when the writer entered its current round */
-static int32_t expq[NR];
+typedef int8_t seq_t;	/* sequence numbers stay below 8 * NSTEPS <= 127 */
+static seq_t sh[SIZE];
+static seq_t wseq, wseq_round;	/* wseq_round: value of wseq when the writer entered its current round */
+static seq_t expq[NR];
 static uint8_t synced[NR], told[NR];
 static int wrapped, dropped, got, wgets;
 
@@ -131,17 +135,17 @@ static int in_ring(const uint8_t *p, size_t len) {
 }
 
 /* Every region inside the ring; bytes carry exactly the expected sequence numbers. Returns total bytes. */
-static size_t check_regions(size_t r, iovec_p iov, size_t cnt) {
+static size_t check_regions(const size_t r, iovec_p iov, size_t cnt, const size_t maxcnt) {
 	size_t total = 0;
-	int32_t e = expq[r], first = -1;
+	seq_t e = expq[r], first = -1;
 	int s_ok = synced[r];
-	V_ASSERT(cnt <= IOVN, "REGION data_get returns at most iov_cnt regions");
-	for (size_t k = 0; k < cnt && k < IOVN; k++) {
+	V_ASSERT(cnt <= maxcnt, "REGION data_get returns at most iov_cnt regions");
+	for (size_t k = 0; k < cnt && k < maxcnt; k++) {
 		V_ASSERT(in_ring(iov[k].iov_base, iov[k].iov_len), "REGION region handed to a reader lies inside the ring");
 		if (!in_ring(iov[k].iov_base, iov[k].iov_len)) return (total);
 		size_t off = (size_t)(iov[k].iov_base - rb->buf);
 		for (size_t j = 0; j < iov[k].iov_len; j++) {
-			int32_t s = sh[off + j];
+			seq_t s = sh[off + j];
 			if (!s_ok) {	/* e is only a lower bound here */
 				V_ASSERT(s >= 0, "ORDER first byte after attach/resync is a committed stream byte");
 				V_ASSERT(s >= e, "ORDER after a reported drop the stream resumes strictly later (no repetition)");
@@ -159,6 +163,9 @@ static size_t check_regions(size_t r, iovec_p iov, size_t cnt) {
 static void note_drop(const size_t r, size_t drop) {
 	if (drop == 0) return;
 	dropped++;
+#ifdef KF_FALSE_DROP	/* finding false_drop_more_blocks */
+	V_ASSUME(!(synced[r] && expq[r] >= wseq_round));
+#endif
 	V_ASSERT(!(synced[r] && expq[r] >= wseq_round), "DROP no drop is reported to a reader whose unread data lies entirely in the writer's current round");
 	V_ASSERT(r_buf_rpos_check_fast(rb, &rp[r]) == 1, "DROP a reader told about a drop has been resynchronised to a valid position");
 	told[r] = 1;
@@ -166,15 +173,47 @@ static void note_drop(const size_t r, size_t drop) {
 	if (synced[r]) { synced[r] = 0; expq[r] = expq[r] + 1; }
 }
 
-/* Case split on the reader's block index before each call that forms &r_buf->iov[rpos->iov_index]: with a symbolic
- * index every iov[i].iov_len behind that pointer is a byte-level extraction from the whole table at a symbolic offset
- * (measured: one r_buf_data_get = 450 k variables); with the index a constant per branch it is a plain element access.
- * Pure case distinction - all branches are in the same formula, the default branch keeps the general call. */
-#define SPLIT_IDX(r, stmt) do { \
-	size_t ix_ = rp[r].iov_index; int done_ = 0; \
-	for (size_t k_ = 0; k_ < IOVTAB; k_++) { if (!done_ && ix_ == k_) { rp[r].iov_index = k_; stmt; done_ = 1; } } \
-	if (!done_) { stmt; } \
-} while (0)
+/* ---- pre-state predicates used only by the known-finding guards (KF_*), see findings/ ---- */
+static int prev_round(const size_t r) {	/* reader is one round behind and inside the previous round's block table */
+	return ((size_t)(rp[r].round_num + 1) == rb->round_num && rp[r].iov_index <= rb->iov_index_max);
+}
+static size_t prev_round_unread(const size_t r) {	/* bytes of the previous round the reader has not consumed */
+	size_t t = 0;
+	for (size_t k = 0; k < IOVTAB; k++) {
+		if (k >= rp[r].iov_index && k <= rb->iov_index_max) t += rb->iov[k].iov_len;
+	}
+	return (t - rp[r].iov_off);
+}
+static void kf_pre_guards(const size_t r) {
+	(void)r;
+#ifdef KF_STALE_PREV	/* finding stale_prev_round: block index ahead of the writer's index but block bytes already overwritten */
+	for (size_t k = 0; k < IOVTAB; k++) {
+		if (k == rp[r].iov_index)
+			V_ASSUME(!(prev_round(r) && k > rb->iov_index && rb->iov[k].iov_base < rb->buf + rb->wpos));
+	}
+#endif
+#ifdef KF_SLOW_STUCK	/* finding slow_reader_stuck: one round behind, block index <= writer index: reported, never resynchronised */
+	V_ASSUME(!(prev_round(r) && rp[r].iov_index <= rb->iov_index));
+#endif
+#ifdef KF_ROUND_WRAP	/* finding round_wrap_silent: >= 2 rounds behind across the SIZE_MAX wrap of round_num */
+	V_ASSUME(!((size_t)(rb->round_num - rp[r].round_num) >= 2 && (size_t)(rp[r].round_num + 1) >= rb->round_num));
+#endif
+}
+/* after a data_get of a reader that was in the previous round: the regions switched to the current round (address
+ * went down) although `unread` previous-round bytes were not all handed out */
+static int gather_skipped(iovec_p iov, size_t cnt, const size_t maxcnt, size_t unread) {
+	size_t old = 0;
+	for (size_t k = 0; k < cnt && k < maxcnt; k++) {
+		if (k > 0 && iov[k].iov_base < iov[k - 1].iov_base) return (old < unread);
+		old += iov[k].iov_len;
+	}
+	return (0);
+}
+static size_t regions_total(iovec_p iov, size_t cnt, const size_t maxcnt) {
+	size_t t = 0;
+	for (size_t k = 0; k < cnt && k < maxcnt; k++) t += iov[k].iov_len;
+	return (t);
+}
 
 static void writer_step(struct step_s s, unsigned m, size_t r) {
 	uint8_t *p = NULL;
@@ -203,8 +242,8 @@ static void writer_step(struct step_s s, unsigned m, size_t r) {
 		}
 		V_ASSERT(e == 0, "WRITER commit that fits the region handed out succeeds");
 		if (e != 0) return;
-		for (size_t j = 0; j < bs; j++) sh[po + j] = (j < off) ? -1 : wseq + (int32_t)(j - off);
-		wseq += (int32_t)(bs - off);
+		for (size_t j = 0; j < bs; j++) sh[po + j] = (j < off) ? -1 : wseq + (seq_t)(j - off);
+		wseq += (seq_t)(bs - off);
 	} else {
 		size_t off = s.b, ds = s.c;
 		V_ASSUME(off <= n && ds <= n - off);
@@ -218,25 +257,33 @@ static void writer_step(struct step_s s, unsigned m, size_t r) {
 		}
 		V_ASSERT(e == 0, "WRITER commit that fits the region handed out succeeds");
 		if (e != 0) return;
-		for (size_t j = 0; j < ds; j++) sh[po + off + j] = wseq + (int32_t)j;
+		for (size_t j = 0; j < ds; j++) sh[po + off + j] = wseq + (seq_t)j;
 		if (rpp != NULL) { synced[r] = 1; expq[r] = wseq; told[r] = 0; }
-		wseq += (int32_t)ds;
+		wseq += (seq_t)ds;
 	}
 }
 
 /* r is a compile-time constant at every call site (a symbolic &rp[r] costs two orders of magnitude) */
 static void reader_step(struct step_s s, unsigned m, const size_t r) {
 	if (HAS(m, OP_RGET) && s.op == OP_RGET) {
-		iovec_t iov[IOVN];
+		iovec_t iov[GIOVN];
 		size_t drop = 0, dsz = 12345;
 		LOG("R%zu data_get(size=%u) rpos before {idx %zu off %zu round %zu} expecting seq %d (synced %d)\n", r, s.a, rp[r].iov_index, rp[r].iov_off, rp[r].round_num, expq[r], synced[r]);
-		size_t cnt = 0;
-		SPLIT_IDX(r, cnt = r_buf_data_get(rb, &rp[r], s.a, iov, IOVN, &drop, &dsz));
+		kf_pre_guards(r);
+		int was_prev = prev_round(r) && rp[r].iov_index > rb->iov_index;
+		size_t unread = was_prev ? prev_round_unread(r) : 0;
+		size_t cnt = r_buf_data_get(rb, &rp[r], s.a, iov, GIOVN, &drop, &dsz);
+#ifdef KF_GATHER_SKIP	/* finding gather_skips_block */
+		V_ASSUME(!(was_prev && gather_skipped(iov, cnt, GIOVN, unread)));
+#endif
+#ifdef KF_DSZ		/* finding data_size_ret_wrong */
+		V_ASSUME(!(was_prev && cnt > 0 && dsz != regions_total(iov, cnt, GIOVN)));
+#endif
 		LOG("   -> %zu regions, data_size_ret %zu, drop %zu; rpos {idx %zu off %zu round %zu}\n", cnt, dsz, drop, rp[r].iov_index, rp[r].iov_off, rp[r].round_num);
-		for (size_t k = 0; k < cnt && k < IOVN; k++) LOG("   region %zu: off %ld len %zu\n", k, (long)(iov[k].iov_base - rb->buf), iov[k].iov_len);
+		for (size_t k = 0; k < cnt && k < GIOVN; k++) LOG("   region %zu: off %ld len %zu\n", k, (long)(iov[k].iov_base - rb->buf), iov[k].iov_len);
 		for (size_t k = 0; k < SIZE; k++) LOG(" %d", sh[k]);
 		LOG("  <- seq per ring byte\n");
-		size_t total = check_regions(r, iov, cnt);
+		size_t total = check_regions(r, iov, cnt, GIOVN);
 		if (cnt > 0) {
 			V_ASSERT(drop == 0, "DROP no drop is reported together with data");
 			V_ASSERT(dsz == total, "DSZ data_size_ret equals the bytes in the returned regions");
@@ -249,7 +296,7 @@ static void reader_step(struct step_s s, unsigned m, const size_t r) {
 		r_buf_rpos_inc(rb, &rp[r], inc);
 		LOG("   rpos_inc(%zu) -> {idx %zu off %zu round %zu}\n", inc, rp[r].iov_index, rp[r].iov_off, rp[r].round_num);
 		V_ASSERT(!v_trap_hit, "INC consuming not more than was handed out never reaches the 'BUG' branch of rpos_inc");
-		expq[r] += (int32_t)inc;
+		expq[r] += (seq_t)inc;
 	} else if (HAS(m, OP_RAVAIL) && s.op == OP_RAVAIL) {
 		iovec_t iov[IOVN];
 		size_t drop = 0, drop2 = 0, dsz = 0;
@@ -257,17 +304,16 @@ static void reader_step(struct step_s s, unsigned m, const size_t r) {
 		V_ASSUME(wgets > 0);
 #endif
 		LOG("R%zu avail: rpos before {idx %zu off %zu round %zu} expecting seq %d (synced %d)\n", r, rp[r].iov_index, rp[r].iov_off, rp[r].round_num, expq[r], synced[r]);
-		size_t av = 0;
-		SPLIT_IDX(r, av = r_buf_data_avail_size(rb, &rp[r], &drop));
+		kf_pre_guards(r);
+		size_t av = r_buf_data_avail_size(rb, &rp[r], &drop);
 		LOG("   -> avail %zu drop %zu; rpos {idx %zu off %zu round %zu}\n", av, drop, rp[r].iov_index, rp[r].iov_off, rp[r].round_num);
 		note_drop(r, drop);
-		size_t cnt = 0;
-		SPLIT_IDX(r, cnt = r_buf_data_get(rb, &rp[r], (size_t)SIZE + 1, iov, IOVN, &drop2, &dsz));
+		size_t cnt = r_buf_data_get(rb, &rp[r], (size_t)SIZE + 1, iov, IOVN, &drop2, &dsz);
 		LOG("   full read -> %zu regions, data_size_ret %zu, drop %zu\n", cnt, dsz, drop2);
 		for (size_t k = 0; k < cnt && k < IOVN; k++) LOG("   region %zu: off %ld len %zu\n", k, (long)(iov[k].iov_base - rb->buf), iov[k].iov_len);
 		for (size_t k = 0; k < SIZE; k++) LOG(" %d", sh[k]);
 		LOG("  <- seq per ring byte\n");
-		size_t total = check_regions(r, iov, cnt);
+		size_t total = check_regions(r, iov, cnt, IOVN);
 		V_ASSERT(cnt < IOVN, "HARNESS full read is not truncated by the region array");
 		if (drop == 0) V_ASSERT(av == total, "AVAIL data_avail_size equals the bytes a full read returns");
 		else V_ASSERT(av == 0, "AVAIL nothing is available in the call that reports a drop");
